@@ -33,6 +33,58 @@ type Cfg struct {
 	// differential checks (C06, C07, C08, C12), whose oracle is the code's own
 	// earlier self, ever switch unknown options on.
 	ExtraBools []string `json:"extra_bools,omitempty"`
+	// Mem: how the cors.Config built from this value is laid out in memory (0: nil
+	// for empty lists, exact capacity; 1: empty non-nil slices; 2: spare capacity
+	// behind every list; 3: all four lists are adjacent sub-slices of ONE array,
+	// each with capacity reaching into the next - what `all[:2]`, `all[2:5]` give).
+	// Same configuration in every layout.
+	Mem int `json:"mem,omitempty"`
+}
+
+// editInPlace is how a careful caller reuses a list it owns: in place where the
+// new contents fit into the old LENGTH (the region that is certainly its own -
+// the capacity behind it may belong to a neighbouring list, see layout 3),
+// fresh memory otherwise.
+func editInPlace(dst, src []string) []string { return append(dst[:0:len(dst)], src...) }
+
+const spareSentinel = "SPARE-CAPACITY-OF-THE-CALLER"
+
+// layOut copies the four lists into fresh memory in layout mem.
+func layOut(mem int, lists [4][]string) [4][]string {
+	var out [4][]string
+	switch mem % 4 {
+	case 1:
+		for i, l := range lists {
+			out[i] = append([]string{}, l...)
+		}
+	case 2:
+		for i, l := range lists {
+			b := make([]string, len(l)+3)
+			copy(b, l)
+			for j := len(l); j < len(b); j++ {
+				b[j] = spareSentinel
+			}
+			out[i] = b[:len(l)]
+		}
+	case 3:
+		n := 2
+		for _, l := range lists {
+			n += len(l)
+		}
+		arr := make([]string, n)
+		at := 0
+		for i, l := range lists {
+			copy(arr[at:], l)
+			out[i] = arr[at : at+len(l)] // capacity runs on into the lists behind
+			at += len(l)
+		}
+		arr[n-2], arr[n-1] = spareSentinel, spareSentinel
+	default:
+		for i, l := range lists {
+			out[i] = cloneStrs(l)
+		}
+	}
+	return out
 }
 
 var knownCfgFields = map[string]bool{"Origins": true, "Credentialed": true, "Methods": true, "RequestHeaders": true, "MaxAgeInSeconds": true,
@@ -110,13 +162,14 @@ func (c Cfg) Config() cors.Config {
 }
 
 func (c Cfg) config() cors.Config {
+	l := layOut(c.Mem, [4][]string{c.Origins, c.Methods, c.RequestHeaders, c.ResponseHeaders})
 	return cors.Config{
-		Origins:         cloneStrs(c.Origins),
+		Origins:         l[0],
 		Credentialed:    c.Credentialed,
-		Methods:         cloneStrs(c.Methods),
-		RequestHeaders:  cloneStrs(c.RequestHeaders),
+		Methods:         l[1],
+		RequestHeaders:  l[2],
 		MaxAgeInSeconds: c.MaxAge,
-		ResponseHeaders: cloneStrs(c.ResponseHeaders),
+		ResponseHeaders: l[3],
 		ExtraConfig: cors.ExtraConfig{
 			PreflightSuccessStatus:                        c.Status,
 			PrivateNetworkAccess:                          c.PNA,
@@ -460,6 +513,11 @@ func genCfg(r *R) Cfg {
 		for r.P(pick(r, []float64{0.25, 0.25, 0.8})) {
 			c.RequestHeaders = append(c.RequestHeaders, randToken(r, pick(r, []string{"X-", "x-", "My", "z"}), pick(r, []int{1, 4, 12, 30, 60})))
 		}
+		if r.P(0.06) {
+			// a name whose length sits on a type-width boundary (uint8, int8) or just beyond
+			n := pick(r, []int{126, 127, 128, 253, 254, 255, 256, 257, 300, 1000})
+			c.RequestHeaders = append(c.RequestHeaders, "x-"+strings.Repeat(pick(r, []string{"l", "a", "z"}), n-2))
+		}
 		c.RequestHeaders = shuffled(r, c.RequestHeaders)
 	}
 	switch x := r.Intn(10); {
@@ -517,6 +575,9 @@ func genCfg(r *R) Cfg {
 	c.Status = pick(r, vocabStatus)
 	if r.P(0.35) {
 		c.Status = r.Range(200, 299)
+	}
+	if r.P(0.2) {
+		c.Mem = r.Range(1, 3)
 	}
 	// values mined from the tree under test (dict.go): kept only if the result is
 	// still accepted, so that the dictionary costs no runs
@@ -675,6 +736,11 @@ func withDict(r *R, c Cfg) (Cfg, bool) {
 // candidate simply does not reproduce and is rejected by the minimiser).
 func shrinkCfg(c Cfg) []Cfg {
 	var out []Cfg
+	if c.Mem != 0 {
+		d := c.clone()
+		d.Mem = 0
+		out = append(out, d)
+	}
 	lists := []*[]string{&c.Origins, &c.Methods, &c.RequestHeaders, &c.ResponseHeaders}
 	for li := range lists {
 		l := *lists[li]
@@ -898,6 +964,9 @@ func originsFor(c Cfg) (match, miss []string) {
 			}
 		}
 		addX(" " + full)
+		if host[0] != '[' {
+			addX(pp.Scheme + "://[" + host + "]" + port) // brackets around something that is no IPv6 literal
+		}
 	}
 	// near-misses of one pattern may be matches of another: re-classify with
 	// the independent matcher so that the names stay honest
